@@ -4,6 +4,8 @@ import (
 	"go/token"
 
 	"golang.org/x/tools/go/ssa"
+
+	"gohbaseverif/kit"
 )
 
 // atomClassifier maps an atomic branch condition to a named atom and the
@@ -87,7 +89,7 @@ func boolFuncTable(fn *ssa.Function, atoms []string, cl atomClassifier) (map[int
 					prev = b
 					b = b.Succs[0]
 				case *ssa.Return:
-					v := t.Results[0]
+					v := kit.Res(t, 0)
 					if ph, ok := v.(*ssa.Phi); ok {
 						if r, ok := env[ph]; ok {
 							v = r
